@@ -80,7 +80,7 @@ var c14Recs sync.Map // token(float64) -> *c14Rec
 var c14Token int64
 var c14Once sync.Once
 
-// fa fb fc: [name, args...]; fe / fp: error / panic when the first argument is 2; fz: always NULL;
+// fa fb fc: [name, args...]; fe / fp: error / panic (with a panic value of one of five kinds) when the first argument is 2; fz: always NULL;
 // fn: NULL when the first argument is 1 (the first row's id), [name, args...] otherwise
 var c14UserFns = []string{"fa", "fb", "fc", "fe", "fp", "fn", "fz"}
 
@@ -128,10 +128,30 @@ func c14Register() {
 					return nil, errors.New("c14: injected error")
 				}
 				if name == "fp" && two {
-					if len(rest)%2 == 1 {
-						panic("c14: injected panic (string)")
+					// a panic value is ANY Go value: which kind is drawn from the call (argument count + item index), so
+					// that every kind occurs under every qualifier
+					k := len(rest)
+					if len(rest) > 1 {
+						if x, ok := rest[1].(float64); ok {
+							k += int(x)
+						}
 					}
-					panic(errors.New("c14: injected panic (error)"))
+					switch k % 5 {
+					case 0:
+						panic("c14: injected panic (string)")
+					case 1:
+						panic(errors.New("c14: injected panic (error)"))
+					case 2: // a value whose text takes a while to produce
+						panic(c14SlowPayload{d: 2 * time.Millisecond})
+					case 3: // a document (some rows of a table) as panic value
+						big := make([]any, 20000)
+						for i := range big {
+							big[i] = map[string]any{"id": float64(i), "s": "row"}
+						}
+						panic(big)
+					default: // the same, quicker
+						panic(c14SlowPayload{d: 300 * time.Microsecond, short: true})
+					}
 				}
 				if name == "fz" {
 					return nil, nil
@@ -145,6 +165,20 @@ func c14Register() {
 			})
 		}
 	})
+}
+
+// c14SlowPayload: a panic value with a String method that takes a while (think of a large struct dumped with %v)
+type c14SlowPayload struct {
+	d     time.Duration
+	short bool
+}
+
+func (p c14SlowPayload) String() string {
+	time.Sleep(p.d)
+	if p.short {
+		return "c14: injected panic (slow stringer, short)"
+	}
+	return "c14: injected panic (slow stringer)"
 }
 
 func (rec *c14Rec) sleep(args []any) {
@@ -442,7 +476,7 @@ func (in *c14In) runOnce(strip bool) (out c14Run) {
 		defer func() {
 			if r := recover(); r != nil {
 				snapshot()
-				out.Class, out.Err = "panic", fmt.Sprint(r)
+				out.Class, out.Err = "panic", c14Trunc(fmt.Sprint(r))
 			}
 		}()
 		q, err := genql.New(in.data(), sql, genql.UnReportedErrors(func(error) {
@@ -452,13 +486,13 @@ func (in *c14In) runOnce(strip bool) (out c14Run) {
 		}))
 		if err != nil {
 			snapshot()
-			out.Class, out.Err = "error", err.Error()
+			out.Class, out.Err = "error", c14Trunc(err.Error())
 			return
 		}
 		rs, err := q.Exec()
 		snapshot() // the instant Exec returns
 		if err != nil {
-			out.Class, out.Err = "error", err.Error()
+			out.Class, out.Err = "error", c14Trunc(err.Error())
 			return
 		}
 		out.Class, out.Rows = "ok", rs
@@ -503,6 +537,14 @@ func (in *c14In) runOnce(strip bool) (out c14Run) {
 	out.Reported = rec.reported
 	rec.mu.Unlock()
 	return out
+}
+
+// error texts can be as long as the panic value they were made of
+func c14Trunc(s string) string {
+	if len(s) > 300 {
+		return s[:300] + "..."
+	}
+	return s
 }
 
 func c14IsSpinInv(iv c14Inv) bool {
@@ -646,7 +688,7 @@ func (propC14) InputType() string      { return "(query * list nat)" }
 func (propC14) ObsType() string        { return "C14Run.obs" }
 func (propC14) Exhaustive(string) bool { return false }
 func (propC14) Rule() string {
-	return "random select lists of 1-5 items mixing plain columns and calls of instrumented functions with every qualifier (none, ASYNC, SPIN, SPINASYNC, ONCE, SCOPED, unknown; any letter case), over tables of 0-6 rows; flat, inside a derived table, inside a select-list subquery (dual or a root table) and over a two-dimensional table; latencies zero / random / skewed (first row finishes last); failing, panicking and NULL-returning functions (a dedicated stream runs ONCE over a function whose first result is NULL, always with >= 2 rows); immediate built-ins under ASYNC/SPIN/SPINASYNC; a case is non-trivial when it contains at least one qualified call and one row; distinct = distinct (query, tables, latency)"
+	return "random select lists of 1-5 items mixing plain columns and calls of instrumented functions with every qualifier (none, ASYNC, SPIN, SPINASYNC, ONCE, SCOPED, unknown; any letter case), over tables of 0-6 rows; flat, inside a derived table, inside a select-list subquery (dual or a root table) and over a two-dimensional table; latencies zero / random / skewed (first row finishes last); failing, panicking (panic values of five kinds: string, error, a value with a slow String method — 2 ms / 0.3 ms —, a 20000-row document) and NULL-returning functions (a dedicated stream runs ONCE over a function whose first result is NULL, always with >= 2 rows); immediate built-ins under ASYNC/SPIN/SPINASYNC; a case is non-trivial when it contains at least one qualified call and one row; distinct = distinct (query, tables, latency)"
 }
 
 func c14Strp(s string) *string   { return &s }
